@@ -251,7 +251,8 @@ Definition process_section (o : options) (st : dstate) (should : bool) (p : patc
        let st' := set_failure (add_event st1 (inform_hunks_failed (if r_skipped ar then bs "ignored" else bs "FAILED")
                                                                   (length (hunks p3)) (r_failed ar) ++ [10%N])) in
        if dry_run o then mret st'
-       else let! _ := checked (OWrite (reject_path o output_file) (r_rej ar)) in mret st'
+       else let! _ := ensure_parent_directories (reject_path o output_file) in
+            let! _ := checked (OWrite (reject_path o output_file) (r_rej ar)) in mret st'
      else mret st1) in
   if str_eqb (out_file_path o) (bs "-") then
     (fun w => (Ok (st2, s2), mkWorld (fs w) (umask w) (trace w) (fault w) (stdout_data w ++ out_bytes)))
@@ -261,7 +262,7 @@ Definition process_section (o : options) (st : dstate) (should : bool) (p : patc
       (negb (r_perfect ar) && negb (r_skipped ar) && match backup_if_mismatch o with OBYes => true | _ => false end) in
   let first_hunk_leaves_nothing :=
     match hunks p3 with h :: _ => Z.eqb (rstart (newr h)) 0 && Z.eqb (rcount (newr h)) 0 | [] => false end in
-  let is_delete := match remove_empty_files o with
+  let is_delete := negb (r_skipped ar) && match remove_empty_files o with
                    | OBYes => match poper p3 with OpDelete => true | _ => first_hunk_leaves_nothing end
                    | _ => false
                    end in
